@@ -4,6 +4,7 @@ package c15
 
 import (
 	"fmt"
+	"math"
 	"reflect"
 	"time"
 
@@ -304,6 +305,13 @@ func units(tier string) []engine.Unit {
 			u = append(u, 12, 100)
 		}
 		run(r, &cfg[int]{name: "int", universe: u, class: func(v int) string { return fmt.Sprint(v) }})
+	})
+	add("int-extremes", func(r *engine.Rec) {
+		// members whose difference does not fit the type: an order computed by subtraction wraps
+		run(r, &cfg[int]{name: "int at the ends of its range", universe: []int{math.MinInt, -1, 0, 2, math.MaxInt}, class: func(v int) string { return fmt.Sprint(v) }})
+		run(r, &cfg[int8]{name: "int8 at the ends of its range", universe: []int8{math.MinInt8, -1, 0, 1, math.MaxInt8}, class: func(v int8) string { return fmt.Sprint(v) }})
+		run(r, &cfg[uint]{name: "uint at the ends of its range", universe: []uint{0, 1, math.MaxInt, math.MaxInt + 1, math.MaxUint}, class: func(v uint) string { return fmt.Sprint(v) }})
+		run(r, &cfg[float64]{name: "float64 at the ends of its range", universe: []float64{math.Inf(-1), -math.MaxFloat64, 0, math.MaxFloat64, math.Inf(1)}, class: func(v float64) string { return fmt.Sprint(v) }})
 	})
 	add("string", func(r *engine.Rec) {
 		run(r, &cfg[string]{name: "string", universe: []string{"", "a", "ab", "b", "c", "ca"}, class: func(v string) string { return fmt.Sprintf("%q", v) }})
